@@ -6,6 +6,7 @@ OPTION_OK_CONSUMERS = {
     # Option/Result combinators that keep "absent stays absent"
     "map", "and_then", "zip", "as_ref", "filter", "ok_or", "ok_or_else", "map_err", "as_deref", "cloned", "copied",
     "ok", "is_some", "is_none", "is_ok", "is_err", "transpose", "flatten", "zip_with", "xor", "or_else_none",
+    "unzip",
 }
 FORBIDDEN = {
     "unwrap", "expect", "unwrap_or", "unwrap_or_else", "unwrap_or_default", "unwrap_unchecked", "expect_err",
@@ -162,6 +163,26 @@ def classify_consumers(F, ev, body, call_block, local, cons, roles, depth):
                         hows.append(m + "→returned")   # handed to the caller as an absent value
                         continue
                     sub = consumers(body, d["l"])
+                    if m == "unzip":
+                        # Option<(A, B)> -> (Option<A>, Option<B>): both components are absent when the pair is; each
+                        # component read out of the tuple is followed like the original
+                        parts_ = []
+                        for c2 in sub:
+                            if c2["kind"] == "field" and "stmt" in c2:
+                                st2 = body.blocks[c2["block"]]["stmts"][c2["stmt"]]
+                                if st2["k"] == "assign" and not st2["place"]["proj"]:
+                                    parts_.append(st2["place"]["l"])
+                                    continue
+                            parts_ = None
+                            break
+                        if not parts_:
+                            return False, m, "the pair of Options produced by `unzip` is not taken apart into its components (undetermined)"
+                        for pl in parts_:
+                            ok, how, msg = classify_consumers(F, ev, body, call_block, pl, consumers(body, pl), roles, depth + 1)
+                            if not ok:
+                                return ok, how, msg
+                            hows.append("unzip→" + how)
+                        continue
                     ok, how, msg = classify_consumers(F, ev, body, call_block, d["l"], sub, roles, depth + 1)
                     if not ok:
                         return ok, how, msg
@@ -453,9 +474,10 @@ def rule_jac_absent(F, ev, R, config, rule="R-JAC-ABSENT"):
             for bi, t in b.calls():
                 d = t["dest"]
                 ty = b.local_ty(d["l"])
-                if not d["proj"] and ty.startswith("std::result::Result<") and "fn" in t:
+                if not d["proj"] and (ty.startswith("std::result::Result<") or ty.startswith("std::option::Option<")) and "fn" in t:
                     cid = callee_id(t["fn"])
                     if cid.endswith("::collect") or cid.endswith("::try_for_each") or cid.endswith("::try_fold") or cid.endswith("from_iter"):
+                        # (an Option-valued closure — `eval_partial_deriv(k).ok()?; …; Some(())` — makes try_for_each an Option)
                         res_locals.append((bi, d["l"], cid))
             if not res_locals:
                 R.bad(rule, config, b.key, "collected@%s" % fl,
